@@ -289,6 +289,28 @@ def real_compile(src):
             "outputs": [[o["name"], o["party"], o["type"]] for o in mir["outputs"]]}
 
 
+def compiled_again(src):
+    """The program's declarations made once (its module body runs once, as for a program kept loaded), `nada_main()` called and
+    its outputs compiled twice: the interface of the second MIR, next to the first's (None when the program does not compile)."""
+    from nada_dsl.compiler_frontend import nada_compile
+    from ..real.env import reset_globals
+    reset_globals()
+    ns = {"__name__": "nv_c18_program"}
+    out = []
+    try:
+        with contextlib.redirect_stdout(io.StringIO()):
+            exec(compile(src, "nv_c18_program.py", "exec"), ns)      # the harness runs the program (the compiler's job, not the auditor's)
+            for _ in range(2):
+                mir = json.loads(nada_compile(ns["nada_main"]()))
+                out.append({"parties": [p["name"] for p in mir["parties"]],
+                            "inputs": [[i["name"], i["party"], i["type"]] for i in mir["inputs"]],
+                            "outputs": [[o["name"], o["party"], o["type"]] for o in mir["outputs"]]})
+    except Exception:  # pylint: disable=broad-except
+        out = None
+    reset_globals()
+    return out
+
+
 # ---- ground truth from the command list alone -------------------------------------------------------
 def deps_of(cmds):
     """for every register the set of Input registers it was computed from; outputs' value registers"""
@@ -485,6 +507,12 @@ def run(res, tier):
                 nontrivial += 1
             if len(samples) < 2 and len(cmds) >= 10:
                 samples.append({"source": src[:700], "signature": sig, "mir_interface": mir})
+        if ml and "reject" not in sig and "reject" not in mir and evals % 2 == 0:
+            # module-level declarations live as long as the module: a second compilation meets the same operation objects
+            twice = compiled_again(src)
+            if twice and len(twice) == 2 and twice[0] != twice[1]:
+                v = v + [("second-compilation", f"the program's outputs compiled a second time in the same process (module-level declarations made once): "
+                                                f"interface {twice[1]} — the first compilation gave {twice[0]}")]
         for kind, text in v:
             if findings and known_stale(kind, cmds, sig, mir):
                 masked += 1
